@@ -25,6 +25,14 @@ def preservesTokens (x : List Rune) : Bool := sameMeaning (tokenize x) (tokenize
 /-- clause 2 at one input: `Format (Format x) = Format x` -/
 def idempotentAt (x : List Rune) : Bool := format (format x) == format x
 
+/-- **the command `caddy fmt`** (cmd/commandfuncs.go `cmdFmt`, the code that overwrites the user's
+    file): what it emits for a file with content `x` — printed (`caddy fmt <file>`), written back
+    (`--overwrite`) or printed for stdin (`caddy fmt -`).  The glue does nothing to the text on the
+    way in or out: the result is `Format x`.  This is a DEFINITION of the model; that the real
+    command behaves so is checked on every run by the `cf` op (harness cmdfmt.go runs the real
+    `caddycmd.Main()` on files, CR LF-heavy ones in particular) and by a regenerated source fact. -/
+def cmdFmtRunes (x : List Rune) : List Rune := format x
+
 /-- ASCII text of a Lean string literal as runes (for examples and witnesses) -/
 def runes (s : String) : List Rune := s.toList.map Char.toNat
 
